@@ -58,7 +58,7 @@ def rule_argmin(ctx):
         if cmps:
             scans.append((fn, tr, cmps))
     if len(scans) != 1:
-        res.violate("linfa_clustering::k_means : scan-functions", "expected exactly one function comparing two rdistance values (the arg-min scan), found %s" % [fn_key(s[0]) for s in scans])
+        res.undecided("linfa_clustering::k_means : scan-functions", "expected exactly one function comparing two rdistance values (the arg-min scan), found %s" % [fn_key(s[0]) for s in scans])
         return res.finish(6)
     scan, tr, cmps = scans[0]
     skey = fn_key(scan)
@@ -92,7 +92,7 @@ def rule_argmin(ctx):
         elif verdict == "reversed":
             res.violate("%s : direction" % skey, "the incumbent is replaced when the candidate is LARGER: %s" % gk[:120], fn_loc(scan, evs[0].node["ln"]))
     if not good and not res.violations:
-        res.violate("%s : no-replacement" % skey, "no guarded replacement of (index, distance) found in the scan", fn_loc(scan))
+        res.undecided("%s : no-replacement" % skey, "no guarded replacement of (index, distance) found in the scan", fn_loc(scan))
     # covers every centroid row: loop iterator derives from rows()/outer_iter()/axis_iter of the centroids parameter without skip/take/step_by
     loops = [e.loops[-1] for e in upd if e.loops]
     if loops:
@@ -189,7 +189,7 @@ def rule_best(ctx):
         top = strip(body)
         loops = [s for s in top["stmts"] if strip(s).get("k") == "Match" and strip(s).get("src") == "ForLoopDesugar"]
         if not loops:
-            res.violate("%s : no-restart-loop" % key, "restart loop not found (fail closed)", fn_loc(fn))
+            res.undecided("%s : no-restart-loop" % key, "restart loop not found (fail closed)", fn_loc(fn))
             continue
         loop = strip(loops[0])
         declared_before = set()
@@ -291,7 +291,7 @@ def rule_best(ctx):
             if len(gs) == 1 and list(gs)[0]:
                 accept = list(gs)[0]
         if accept is None:
-            res.violate("%s : no-acceptance-guard" % key, "the returned centroids are not saved under a single acceptance guard inside the restart loop (fail closed)", fn_loc(fn))
+            res.undecided("%s : no-acceptance-guard" % key, "the returned centroids are not saved under a single acceptance guard inside the restart loop (fail closed)", fn_loc(fn))
             continue
         res.instance("%s : acceptance guard `%s` saves %s" % (key, accept[-1], sorted(names[v] for v in cent_src)))
         res.ok()
